@@ -479,4 +479,5 @@ func checkC05(c *Ctx) {
 	ruleVLQ(c, "", "C05.3", "")
 	loopTermination(c, "C05.4", scope)
 	missingTracksRule(c, "C05.5", readFrom)
+	runReadFromSim(c, "", "C05.5")
 }
